@@ -419,7 +419,7 @@ PROPS = {
                        "print exactly one ASCII character (the alignment arithmetic counts 1 and 3 for them); WithContext::pass_context keeps the context.",
         "units_doc": ["core/src/syntax/display.rs: get_column, Alignment::{absolute,plus}, call-site slices get_column(48, ..) / get_column(50 + trailing, ..), format-string literal slices",
                       "core/src/syntax/display.rs: DisplayWithAlignment for WithContext<ValueExpr> / <Expr> / <Amount> (whole functions), WithContext::pass_context", "core/src/syntax/expr.rs: Display for UnaryOp, Display for BinaryOp"],
-        "assumptions": ["ASSUMED model of core::fmt (vx/prelude/fmt_model.rs): write!(f, ..) sends the pieces of its format string to the sink in order and stops at the first error (rule R40); `{}` appends the argument's Display text; x.to_string() is that text; "
+        "assumptions": ["ASSUMED model of core::fmt (vx/prelude/fmt_model.rs): write!(f, ..) sends the pieces of its format string to the sink in order and stops at the first error (rule R50); `{}` appends the argument's Display text; x.to_string() is that text; "
                         "str::len counts UTF-8 bytes (utf8_len is the definition of the encoding)", "ASSUMED: display::rescale is a function of (amount, context) (its contract is proved in group `rescale`); the text Display for PrettyDecimal prints is uninterpreted here (family c07)",
                         "the printed text of one expression has at most usize::MAX bytes (requires of fmt_with_alignment)", "{:>width$} padding and unicode-width are not verified", "widths < 2^30"],
         "not_decided": ["that the number PrettyDecimal prints is ASCII (so that bytes = display columns; family c07 / c19)", "the statement order inside Display for Posting beyond the sliced expressions; unicode width; entry separation in format.rs"],
